@@ -1,5 +1,249 @@
 package rules
 
+import (
+	"encoding/json"
+	"fmt"
+	"go/types"
+	"os"
+	"os/exec"
+	"path/filepath"
+	"sort"
+	"strings"
+	"time"
+
+	"asverif/internal/load"
+
+	"golang.org/x/tools/go/callgraph"
+	"golang.org/x/tools/go/callgraph/cha"
+	"golang.org/x/tools/go/callgraph/vta"
+	"golang.org/x/tools/go/ssa"
+	"golang.org/x/tools/go/ssa/ssautil"
+)
+
+// thoroughImpl adds, on top of the quick rule evaluation:
+//
+//	(i)   a whole-program cross-check of the repo-restricted call graph against the VTA call graph
+//	      (SSA of every dependency): every repo function that VTA finds reachable from the controller's
+//	      and the helpers' entry points must be in the reach set the rules used;
+//	(ii)  the same rules on loads for GOOS=darwin and GOARCH=386 (build-tag coverage);
+//	(iii) replay of the seeded changes recorded for this property on scratch copies (evidence only).
 func thoroughImpl(c *Ctx, prop *Property, findings []Finding, repo string, quick *Result) ([]string, int) {
-	return nil, 0
+	var lines []string
+	exit := 0
+	cov := quick.Evidence.Coverage
+	t0 := time.Now()
+
+	// (ii) other platforms
+	platforms := [][2]string{{"darwin", ""}, {"", "386"}}
+	var plat []map[string]any
+	for _, pl := range platforms {
+		p2, err := load.Load(repo, false, pl[0], pl[1])
+		entry := map[string]any{"goos": pl[0], "goarch": pl[1]}
+		if err != nil {
+			entry["error"] = err.Error()
+			lines = append(lines, fmt.Sprintf("VIOLATION property=%s replay=%s", prop.ID, filepath.Join("/verif/evidence", prop.ID+".json")))
+			lines = append(lines, fmt.Sprintf("  undecided: the tree does not load for GOOS=%q GOARCH=%q: %v", pl[0], pl[1], err))
+			exit = 1
+			plat = append(plat, entry)
+			continue
+		}
+		c2 := NewCtx(p2, "thorough")
+		tmp, _ := os.MkdirTemp("", "asv-plat-")
+		r2 := RunProperty(c2, prop, findings, 0, tmp, nil)
+		os.RemoveAll(tmp)
+		entry["obligations"] = len(c2.Obs)
+		entry["exit"] = r2.Exit
+		entry["files"] = len(p2.Files)
+		if r2.Exit != 0 {
+			exit = 1
+			for _, l := range r2.Lines {
+				if strings.HasPrefix(l, "VIOLATION") {
+					lines = append(lines, fmt.Sprintf("VIOLATION property=%s replay=%s", prop.ID, filepath.Join("/verif/evidence", prop.ID+".json")))
+				} else {
+					lines = append(lines, fmt.Sprintf("  [GOOS=%s GOARCH=%s] %s", pl[0], pl[1], l))
+				}
+			}
+		}
+		plat = append(plat, entry)
+	}
+	cov["other_platform_loads"] = plat
+
+	// (i) VTA cross-check
+	vt := time.Now()
+	diff, nVTA, nAST, err := vtaCrossCheck(c, repo)
+	vtaEntry := map[string]any{"vta_reachable_repo_functions": nVTA, "rule_graph_reachable_repo_functions": nAST, "wall_s": time.Since(vt).Seconds()}
+	if err != nil {
+		vtaEntry["error"] = err.Error()
+		lines = append(lines, fmt.Sprintf("VIOLATION property=%s replay=%s", prop.ID, filepath.Join("/verif/evidence", prop.ID+".json")))
+		lines = append(lines, "  undecided: whole-program call graph could not be built: "+err.Error())
+		exit = 1
+	} else if len(diff) > 0 {
+		vtaEntry["missing_from_rule_graph"] = diff
+		lines = append(lines, fmt.Sprintf("VIOLATION property=%s replay=%s", prop.ID, filepath.Join("/verif/evidence", prop.ID+".json")))
+		lines = append(lines, "  undecided: the whole-program VTA call graph reaches repo functions with API effects that the rules' repo-restricted call graph does not: "+strings.Join(diff, ", "))
+		exit = 1
+	}
+	cov["vta_cross_check"] = vtaEntry
+
+	// (iii) seeded replay
+	applicable, fired := 0, 0
+	var replay []map[string]any
+	seeds, _ := filepath.Glob("/verif/seeded/*/meta.json")
+	sort.Strings(seeds)
+	for _, mf := range seeds {
+		b, err := os.ReadFile(mf)
+		if err != nil {
+			continue
+		}
+		var meta struct {
+			DetectedBy []string `json:"detected_by"`
+		}
+		if json.Unmarshal(b, &meta) != nil {
+			continue
+		}
+		mine := false
+		for _, d := range meta.DetectedBy {
+			if d == prop.ID {
+				mine = true
+			}
+		}
+		if !mine {
+			continue
+		}
+		name := filepath.Base(filepath.Dir(mf))
+		entry := map[string]any{"seed": name}
+		tmp, err := os.MkdirTemp("", "asv-seed-")
+		if err != nil {
+			continue
+		}
+		func() {
+			defer os.RemoveAll(tmp)
+			if out, err := exec.Command("rsync", "-a", "--exclude", ".git", repo+"/", tmp+"/").CombinedOutput(); err != nil {
+				entry["skipped"] = "copy failed: " + string(out)
+				return
+			}
+			cmd := exec.Command("patch", "-p1", "-s", "--no-backup-if-mismatch", "-i", filepath.Join(filepath.Dir(mf), "patch.diff"))
+			cmd.Dir = tmp
+			if out, err := cmd.CombinedOutput(); err != nil {
+				entry["skipped"] = "patch does not apply to the current tree: " + clip(string(out), 120)
+				return
+			}
+			applicable++
+			p3, err := load.Load(tmp, false, "", "")
+			if err != nil {
+				entry["fired"] = true
+				entry["how"] = "the patched tree does not load: " + clip(err.Error(), 120)
+				fired++
+				return
+			}
+			c3 := NewCtx(p3, "quick")
+			ev, _ := os.MkdirTemp("", "asv-seed-ev-")
+			r3 := RunProperty(c3, prop, findings, 0, ev, nil)
+			os.RemoveAll(ev)
+			entry["fired"] = r3.Exit == 1
+			if r3.Exit == 1 {
+				fired++
+				for _, l := range r3.Lines {
+					if strings.HasPrefix(strings.TrimSpace(l), "violated") || strings.HasPrefix(strings.TrimSpace(l), "undecided") {
+						entry["first_report"] = clip(strings.TrimSpace(l), 240)
+						break
+					}
+				}
+			}
+		}()
+		replay = append(replay, entry)
+	}
+	cov["seeded_replay"] = map[string]any{"variants_applicable": applicable, "variants_fired": fired, "details": replay,
+		"note": "evidence only: a seeded patch that no longer applies to an edited tree says nothing about the property, so the replay never changes the exit code"}
+	cov["thorough_wall_s"] = time.Since(t0).Seconds()
+	lines = append(lines, fmt.Sprintf("%s thorough: platforms %d, VTA cross-check %d/%d repo functions (missing %d), seeded replay %d/%d fired", prop.ID, len(platforms), nAST, nVTA, len(diff), fired, applicable))
+	return lines, exit
+}
+
+// vtaCrossCheck builds SSA for the whole program and the VTA call graph and
+// compares the set of repo functions reachable from the entry points.
+func vtaCrossCheck(c *Ctx, repo string) (missing []string, nVTA, nAST int, err error) {
+	deep, err := load.Load(repo, true, "", "")
+	if err != nil {
+		return nil, 0, 0, err
+	}
+	var initial = deep.Roots
+	prog, _ := ssautil.AllPackages(initial, ssa.InstantiateGenerics)
+	prog.Build()
+	all := ssautil.AllFunctions(prog)
+	cg := vta.CallGraph(all, cha.CallGraph(prog))
+	// entry points
+	rootNames := map[string]bool{}
+	var astRoots []*types.Func
+	for _, r := range c.controllerRoots() {
+		rootNames[r.FullName()] = true
+		astRoots = append(astRoots, r)
+	}
+	for _, n := range []string{"Upgrade", "NewHijackClient"} {
+		if fi := c.P.Func(load.HelperPkg, n); fi != nil {
+			rootNames[fi.Obj.FullName()] = true
+			astRoots = append(astRoots, fi.Obj)
+		}
+	}
+	// every method of the hijack types is an entry point too (called by client code)
+	for _, fi := range c.P.Funcs() {
+		if fi.Pkg.PkgPath == load.HelperPkg && fi.Decl.Recv != nil {
+			rootNames[fi.Obj.FullName()] = true
+			astRoots = append(astRoots, fi.Obj)
+		}
+	}
+	var roots []*callgraph.Node
+	for f, n := range cg.Nodes {
+		if f != nil && f.Object() != nil {
+			if fo, ok := f.Object().(*types.Func); ok && rootNames[fo.FullName()] {
+				roots = append(roots, n)
+			}
+		}
+	}
+	if len(roots) < 5 {
+		return nil, 0, 0, fmt.Errorf("only %d entry points found in the VTA graph", len(roots))
+	}
+	seen := map[*callgraph.Node]bool{}
+	work := append([]*callgraph.Node{}, roots...)
+	vtaReach := map[string]bool{}
+	for len(work) > 0 {
+		n := work[len(work)-1]
+		work = work[:len(work)-1]
+		if seen[n] {
+			continue
+		}
+		seen[n] = true
+		if n.Func != nil {
+			f := n.Func
+			// closures are attributed to their enclosing declared function, as in the rule graph
+			for f.Parent() != nil {
+				f = f.Parent()
+			}
+			if fo, ok := f.Object().(*types.Func); ok && fo.Pkg() != nil && load.IsRepo(fo.Pkg().Path()) {
+				vtaReach[fo.FullName()] = true
+			}
+		}
+		for _, e := range n.Out {
+			if !seen[e.Callee] {
+				work = append(work, e.Callee)
+			}
+		}
+	}
+	astReach := c.G.Reach(astRoots...)
+	astNames := map[string]bool{}
+	for f := range astReach {
+		astNames[f.FullName()] = true
+	}
+	// functions with effect sites
+	hasSite := map[string]bool{}
+	for _, s := range c.G.Sites {
+		hasSite[s.Fn.FullName()] = true
+	}
+	for name := range vtaReach {
+		if hasSite[name] && !astNames[name] {
+			missing = append(missing, name)
+		}
+	}
+	sort.Strings(missing)
+	return missing, len(vtaReach), len(astNames), nil
 }
